@@ -59,6 +59,7 @@ class Peer:
         self.q = queue.Queue()
         self.stop = False
         self.unsol_sent = []      # systems in injection order
+        self.aborted = {}         # system -> tag of requests answered with the abort function S2F0
         self.peer_requests = []   # systems of W primaries (S1F1) the application answers with send_response
         self.app_replies = []     # systems of the S1F2 the endpoint sent
         self.special = [0, 1, 0x7FFFFFFF, 0x80000000, 0xFFFFFFFF, 0xFFFFFFFE]   # boundary transaction ids, each used once
@@ -95,6 +96,10 @@ class Peer:
 
     def reply_frame(self, system, tag):
         serial = next(self.serial)
+        if self.rng.random() < 0.12:
+            # the peer aborts the transaction: S2F0 is the reply to this request just like an S2F26 would be
+            self.aborted[system] = tag
+            return serial, wire.hsms_data(2, 0, False, system, b"")
         body = e5ref.encode(("B", tag + serial.to_bytes(4, "big")))
         return serial, wire.hsms_data(2, 26, False, system, body)
 
@@ -182,10 +187,16 @@ class Peer:
         self.answer(rec, late=True)
 
 
+def _late_reply(m, peer):
+    """A reply (S2F26 or the abort S2F0) that arrived after its requester had timed out and is handed to the application as an
+    ordinary message; the peer may have used the same transaction id for a request of its own in the meantime."""
+    return (m["stream"], m["function"]) in ((2, 26), (2, 0)) and m["system"] in peer.peer_requests
+
+
 def _count_unsol(rig, peer):
     mine = set(peer.unsol_sent)
     # a late S2F26 may share its transaction id with a later request of the peer: it is a reply, not one of these primaries
-    return sum(1 for m in list(rig.delivered) if m["system"] in mine and (m["stream"], m["function"]) != (2, 26))
+    return sum(1 for m in list(rig.delivered) if m["system"] in mine and not _late_reply(m, peer))
 
 
 def _history(ctx, inj, idx):
@@ -274,7 +285,11 @@ def _history(ctx, inj, idx):
             if rng.random() < 0.5:
                 # the link is lost in the middle of an inbound message
                 fr = wire.hsms_data(6, 11, True, 0x7F000000 + cyc, rng.randbytes(rng.choice([0, 40, 400])))
-                rig.pipe.feed(fr[:rng.choice([3, 4, 6, 14, len(fr) - 1])])
+                part = fr[:rng.choice([3, 4, 6, 14, len(fr) - 1])]
+                if rng.random() < 0.5:
+                    # behind a complete message in the same segment (consumed bytes in front of the partial frame)
+                    part = wire.hsms_control(wire.LINKTEST_REQ, 0x7E000000 + cyc) + part
+                rig.pipe.feed(part)
                 rig.quiesce(0.5)
                 ctx.count("reconnect.link_lost_inside_a_frame")
             rig.pipe.peer_close()
@@ -325,6 +340,9 @@ def _history(ctx, inj, idx):
             except Exception:
                 payload = b""
             rtag, serial = payload[:-4], int.from_bytes(payload[-4:], "big") if len(payload) >= 4 else -1
+            if (res["stream"], res["function"]) == (2, 0) and req is not None and res["system"] == req[2] and peer.aborted.get(req[2]) == c["tag"]:
+                ctx.count("oracle.abort_replies_returned_to_their_requester")
+                continue
             if req is None or res["system"] != req[2] or rtag != c["tag"] or (res["stream"], res["function"]) != (2, 26):
                 ctx.violation("caller-received-foreign-reply", {**base, "own_tag": c["tag"].hex(), "own_system": req[2] if req else None,
                                                                "reply_system": res["system"], "reply_tag": rtag.hex()})
@@ -338,11 +356,11 @@ def _history(ctx, inj, idx):
                 ctx.violation("timely-reply-not-returned-to-requester", {**base, "tag": c["tag"].hex(), "reply_delay_s": round(mine[0]["delay"], 4)})
     # (4) unsolicited primaries: exactly once, in arrival order, never overlapping
     mine_unsol = set(peer.unsol_sent)
-    got = [m["system"] for m in rig.delivered if m["system"] in mine_unsol and (m["stream"], m["function"]) != (2, 26)]
+    got = [m["system"] for m in rig.delivered if m["system"] in mine_unsol and not _late_reply(m, peer)]
     ctx.count("oracle.unsolicited_checked", len(peer.unsol_sent))
     if got != peer.unsol_sent:
         rig.confirm_absent(lambda: _count_unsol(rig, peer) >= len(peer.unsol_sent), 0.5)
-        got = [m["system"] for m in rig.delivered if m["system"] in mine_unsol and (m["stream"], m["function"]) != (2, 26)]
+        got = [m["system"] for m in rig.delivered if m["system"] in mine_unsol and not _late_reply(m, peer)]
     if got != peer.unsol_sent:
         missing = [s for s in peer.unsol_sent if s not in got]
         dup = sorted({s for s in got if got.count(s) > 1})
